@@ -23,6 +23,7 @@ type blkBox struct {
 	Bb   int      `json:"bb"`
 	H    int      `json:"h"`
 	Mh   int      `json:"mh"`
+	Mxp  int      `json:"mxp"`
 	Kids []blkBox `json:"kids"`
 }
 
@@ -171,6 +172,9 @@ func c10Forest(f []blkBox, b *strings.Builder, pct bool) {
 		mh := ""
 		if x.Mh > 0 {
 			mh = fmt.Sprintf(";min-height:%dpx", x.Mh)
+		}
+		if x.Mxp > 0 {
+			mh += fmt.Sprintf(";max-height:%d%%", x.Mxp)
 		}
 		b.WriteString(fmt.Sprintf(`<div style="margin-top:%d%s;margin-bottom:%d%s;border-top-width:%dpx;border-bottom-width:%dpx;height:%s%s">`, x.Mt, u, x.Mb, u, x.Bt, x.Bb, px(x.H), mh))
 		c10Forest(x.Kids, b, pct)
